@@ -16,8 +16,8 @@ What is transcribed
   `none` = mkstemp failed → `error()`), the name is pushed to `tmpfiles`;
 * `run_subprocess`: `fork/execvp` (step "spawn"), `wait` (step "wait"), `if (status != 0) exit(1)`;
   the wait status of every child is chosen by the ENVIRONMENT (`Env.sched prog k` = outcome of the
-  k-th invocation of `prog`): exit code or death by signal; a failing `as`/`ld` may or may not have
-  left (junk in) its output file (`Outcome.wrote`);
+  k-th invocation of `prog`): exit code or death by signal; a failing `as`/`ld` may leave its output path
+  untouched, leave junk in it, or remove it (`Outcome.leaves`);
 * cc1 (main.c `cc1`): the assembly is produced into a memory buffer and the output file is opened only
   after `codegen` returned (`-E`: `print_tokens` opens it after `preprocess`), so a failing cc1 writes
   nothing to its output path; a succeeding one writes it completely;
@@ -56,12 +56,16 @@ def Status.wait : Status → Nat
   | .exit k => (k % 256) * 256
   | .signal n => n % 127 + 1
 
+/-- what a FAILING as/ld does to its output path (GNU as and ld unlink it on error; a tool killed half-way
+    leaves a partial file; or it never got as far as opening it) -/
+inductive Leaves where | untouched | junk | removed deriving DecidableEq, Repr, Inhabited
+
 structure Outcome where
   status : Status
-  wrote : Bool := false   -- a FAILING as/ld left something in its output file
+  leaves : Leaves := .untouched
   deriving DecidableEq, Repr, Inhabited
 
-def Outcome.ok : Outcome := ⟨.exit 0, false⟩
+def Outcome.ok : Outcome := ⟨.exit 0, .untouched⟩
 
 /-! ### file system -/
 
@@ -232,8 +236,11 @@ def childEffect (mode : Mode) (prog : Prog) (oc : Outcome) (fs : FS P) (inp : Li
   | none => fs                                    -- `-E` without `-o`: stdout
   | some o =>
     if oc.status.wait = 0 then fs.set o (childOut mode prog fs inp)
-    else if oc.wrote && decide (prog ≠ .cc1) then fs.set o ⟨.junk, []⟩
-    else fs                                       -- cc1 opens its output only after codegen succeeded
+    else if prog = .cc1 then fs                   -- cc1 opens its output only after codegen succeeded
+    else match oc.leaves with
+      | .untouched => fs
+      | .junk => fs.set o ⟨.junk, []⟩
+      | .removed => fs.erase o
 
 /-! ### the driver's steps -/
 
